@@ -25,6 +25,18 @@ CHECKS = {
              text="Exhaustive within bounds: all 125 assignments of {UTF-8, UTF-8+BOM, UTF-16LE/BE+BOM, Windows-1252} to three files carrying non-ASCII text before a planted fault; verdict, codes and line:col must equal the specification's (encoding-free) observation and each other. Every byte value 0x00-0xFF in a comment, a string, between tokens and inside an identifier, plus random binary files: no crash, contract holds, positions inside the decoded text, neutral characters keep the verdict.",
              ref="DESIGN.md 3.7, 5/C14",
              note="Encoders are Python codecs (trusted)."),
+ "C01": dict(tech="TLC model checking of Grammar.tla (derivation machine over the Annex-B reference grammar: OneValue, NothingDropped, Terminates, PrecedenceShape); every derivation replayed into parse_program and the projected library compared with the abstract syntax computed by the specification",
+             text="Exhaustive within bounds: every derivation of the reference grammar per area (expressions, statements, TYPE forms, VAR blocks x qualifiers x initialisers, FUNCTION / FUNCTION_BLOCK / PROGRAM, SFC, CONFIGURATION, libraries) within the fuel bound is enumerated by TLC together with the abstract syntax it denotes (precedence and associativity by construction of the stratified grammar); each is spelled canonically and with random layout, parsed, projected and compared node by node.",
+             ref="DESIGN.md 3.2, 5/C01"),
+ "C04": dict(tech="Grammar.tla corpus -> token-level mutants, token sequences, nesting shapes, extreme literals (+ seeded soup / bytes) run through lex, parse, analyse, render under catch_unwind with a CPU-time budget, and through the ironplcc binary",
+             text="The specification supplies the structured input space (derivations, their single-token mutants, token-class sequences, literal positions); the check runs every stage in-process under catch_unwind on an 8 MiB stack with a CPU-time budget and a sample through the real binary; a panic, abort, stack overflow or exceeded budget is a violation.",
+             ref="DESIGN.md 5/C04", note="'Arbitrary bytes' is a seeded random sample, not an enumeration."),
+ "C08": dict(tech="relational replay of the Grammar.tla corpus: canonical vs re-spelled text (single-site keyword case, all-site random case and trivia, END_IF without semicolon) must project to the same library and the same analysis codes",
+             text="Every keyword / literal prefix / duration unit of the corpus is varied alone (lower, upper, mixed case); every derivation is re-spelled at all sites with random case per keyword and identifier occurrence and random trivia (blanks, tabs, LF, CRLF, FF, single- and multi-line, nested-looking, non-ASCII comments) at every inter-token position; END_IF is written without its semicolon.",
+             ref="DESIGN.md 3.2, 5/C08"),
+ "C10": dict(tech="replay of the Grammar.tla corpus: parse, render, re-parse, compare (PartialEq and projected abstract syntax), re-render (fixed point); sample through `ironplcc echo | ironplcc echo`",
+             text="Every derivation accepted by the parser is round-tripped; constructs whose rendering is defective at the pinned commit are quarantined by production label in known_findings.json, every other derivation must round-trip exactly.",
+             ref="DESIGN.md 3.2, 5/C10"),
 }
 NA = {
 }
